@@ -25,7 +25,7 @@ EXTRA_MODULES = ["CRProps.T17", "CRProps.T04"]      # translator tie: Gen.Src (r
 REQUIRED_BUCKETS = ["role/static", "role/dynamic-traj", "role/dynamic-set", "role/dynamic-none", "role/phantom", "role/environment",
                     "state/PMState", "t/before", "t/initial", "t/inside", "t/after", "uncertain/orientation", "uncertain/position",
                     "scenario/role-filter", "scenario/position-interval", "shape/group", "shape/poly",
-                    "history/trajectory-replaced"]
+                    "history/trajectory-replaced", "history/update-initial-state"]
 
 TOL = 1e-9
 
@@ -452,6 +452,25 @@ def run_obstacle(ctx, case):
         elif k == "static" and st is not obj.initial_state:
             ctx.fail("C04/static.state_at_time/not-initial-state", f"t={t}", sub)
     ctx.compare(case, [{k: v for k, v in a.items()} for a in impl], model, "occupancy_at_time/state_at_time vs CR.Occ")
+    # the same obstacle after update_initial_state: the occupancy at the new initial step is the shape placed at the NEW initial state
+    if o["kind"].startswith("dynamic") and o["id"] % 2 == 1 or o["kind"] == "dynamic-none":
+        o3 = json.loads(json.dumps(o))
+        npose = {"pos": [o["init"]["pos"][0] + 2.5, o["init"]["pos"][1] - 1.5], "ori": o["init"]["ori"]}
+        nt = o["t_init"] + 1
+        obj2 = build_obstacle(o)
+        obj2.occupancy_at_time(o["t_init"])
+        r5 = call(obj2.update_initial_state, build_state("InitialState", nt, npose))
+        ctx.tag("history/update-initial-state")
+        sub = {"kind": "obstacle", "obst": o, "ts": [nt]}
+        if r5[0] != "ok":
+            ctx.fail(f"C04/{o['kind']}.update_initial_state/raises-{r5[1]}", r5[2], sub)
+        else:
+            occ5, st5 = obj2.occupancy_at_time(nt), obj2.state_at_time(nt)
+            if occ5 is None or st5 is None or st5.time_step != nt or not same_geometry(
+                    shape_points(occ5.shape), expected_placement(o["shape"], npose["pos"], npose["ori"])):
+                ctx.fail(f"C04/{o['kind']}.occupancy_at_time/stale-after-update_initial_state",
+                         f"t={nt}: after update_initial_state the occupancy is not the shape placed at the new initial state", sub)
+        _ = o3
     # the same obstacle after its prediction's trajectory / shape has been replaced through the public setters: occupancy and state
     # must again be the shape placed at the (new) state of that step  (query -> replace -> query)
     if o["kind"] == "dynamic-traj":
